@@ -12,26 +12,33 @@ RULE = (
     "all unordered pairs (both directions evaluated) of a CPV universe (4 keys x versions spelled differently but "
     "PMS-equal: 1.0/1.00, 01/1, 1.01/1.010, _alpha/_alpha0, absent/-r0/-r00/-r1/-r01) and of an atom universe (product "
     "of operator+version x slot/sub-slot/slot-operator x ::repo x USE deps incl. reordered x blocker strength, plus "
-    "negate_vers variants and other keys): x==y => equal hashes, neither < nor >, both <= and >=; x!=y => exactly one "
-    "of <, >; != is the negation of ==; <= is (< or ==); >= is (> or ==); x<y <=> y>x; {x,y} and sorted() agree; all "
+    "negate_vers variants) and of cross-key universes whose 42 keys are 7 categories x 6 package names that are proper "
+    "prefixes of one another continued by '-', '+', '.', digit, '_' or letter (a, a-b, a+b, a.b, a1, a_b, ab / x, x-y, "
+    "x+, x1, x_y, xy); each of ==, !=, <, <=, >, >= is called on the real objects in both directions: x==y => equal hashes, neither < nor >, both <= and >=; x!=y => exactly one "
+    "of <, >; != is the negation of ==; <= is (< or ==); >= is (> or ==); x<y <=> y>x; {x,y}, min/max and sorted() agree; across packages (and for CPV versions) all six operators "
+    "agree with the reference order (category, then package name, then PMS version); all "
     "ordered triples of sub-universes: < transitive, == transitive, incomparability transitive, and all six "
-    "permutations of a pairwise-consistent triple sort to element-wise equal lists. A class is (kind, attributes in "
+    "permutations of a pairwise-consistent triple sort to element-wise equal lists that are chains under <, <=, >, >=. A class is (kind, attributes in "
     "which the pair differs, observed ==/</> outcome); distinct_nontrivial counts classes observed."
 )
 ASSUMPTIONS = [
     "Excl: versioned-vs-unversioned CPV pairs (ordering raises TypeError by design)",
     "Excl: comparisons between a CPV/atom and objects of other types",
     "only the attribute menus listed in BOUNDS; atoms are built with no EAPI restriction",
+    "reference order: objects of different packages order by category then package name as plain strings (what CPV's "
+    "operators and atom.__cmp__ document); CPVs of one package order by PMS version (ref.pms_ver_cmp); atoms of one "
+    "package are only required to be mutually consistent",
     "triples are checked over sub-universes only; the sort check is applied to triples whose three pairs already "
     "satisfy the pair oracle (inconsistent pairs are reported by the pair check itself)",
 ]
 BOUNDS = {
     "quick": "CPV: 4 keys x 28 version spellings x 6 revision spellings + unversioned + 3-arg forms (679) -> all pairs; "
-    "atoms: 2103 atoms of one key -> all pairs (2.2M), 216 atoms over 3 keys -> all pairs; all ordered triples over 83 "
-    "CPVs and 144 atoms",
+    "atoms: 2931 atoms of one key -> all pairs (4.3M); cross-key: 708 atoms over 44 keys and 210 CPVs over 42 "
+    "prefix-related keys -> all pairs; all ordered triples over 83 CPVs and 144 atoms of one key and over 84 CPVs and 84 "
+    "atoms spread over the 42 prefix-related keys",
     "thorough": "CPV: 4 keys x 50 version spellings x 8 revision spellings (1607) -> all pairs; atoms: 7047 atoms of one "
     "key (12 op+version x 8 slot parts x 3 repos x 8 USE x 3 blockers + negate_vers variants) -> all pairs (24.8M); "
-    "all ordered triples over 126 CPVs and 288 atoms",
+    "cross-key pairs and key triples as in quick; all ordered triples over 126 CPVs and 288 atoms of one key",
 }
 
 TIME_CAP = {"thorough": 840}
@@ -147,12 +154,40 @@ def atom_universe(tier):
     return list(seen.values())
 
 
+# categories / package names that are proper prefixes of one another, continued by a character that sorts before
+# '/' ('-', '+', '.') or after it (digit, letter, '_'): 'a/x' vs 'a-b/x' order differently as (category, package)
+# pairs and as 'cat/pkg' strings, so a shortcut comparing the joined key is visible only on such pairs
+PREFIX_CATS = ["a", "a-b", "a+b", "a.b", "a1", "a_b", "ab"]
+PREFIX_PKGS = ["x", "x-y", "x+", "x1", "x_y", "xy"]
+PREFIX_KEYS = [(c, p) for c in PREFIX_CATS for p in PREFIX_PKGS]
+
+
 def atom_cross_universe(tier):
     out = []
     for k in ("a/x", "a/y", "b/x"):
         for opv, s, u, b in itertools.product([("", ""), ("=", "1.0"), ("=", "1.00"), (">=", "2")], ["", ":0/a", ":0/b"], ["", "[x,y]", "[y,x]"], ["", "!"]):
             out.append(_ad(k, opv, s, "", u, b))
+    for c, p in PREFIX_KEYS:
+        for opv, s, b in itertools.product([("", ""), ("=", "1.0"), ("=", "1.00")], ["", ":0/a"], ["", "!"]):
+            out.append(_ad(f"{c}/{p}", opv, s, "", "", b))
+    seen = {}
+    for d in out:
+        seen.setdefault(atom_text(d), d)
+    return list(seen.values())
+
+
+def atom_keys_sub_universe(tier):
+    return [_ad(f"{c}/{p}", opv) for c, p in PREFIX_KEYS for opv in (("", ""), ("=", "1.0"))]
+
+
+def cpv_cross_universe(tier):
+    out = [{"c": c, "p": p, "v": None} for c, p in PREFIX_KEYS]
+    out += [{"c": c, "p": p, "v": v} for c, p in PREFIX_KEYS for v in ("1.0", "1.00", "2", "1.0-r1")]
     return out
+
+
+def cpv_keys_sub_universe(tier):
+    return [{"c": c, "p": p, "v": v} for c, p in PREFIX_KEYS for v in ("1.0", "1.00")]
 
 
 def atom_sub_universe(tier):
@@ -222,6 +257,28 @@ def atom_diff(a, b):
     return dims
 
 
+def _sign(a, b):
+    return (a > b) - (a < b)
+
+
+def cpv_ref_sign(a, b):
+    """Reference order of two comparable CPVs: category, then package (plain string order), then PMS version."""
+    if (a["c"], a["p"]) != (b["c"], b["p"]):
+        return _sign((a["c"], a["p"]), (b["c"], b["p"]))
+    if a["v"] is None or b["v"] is None:
+        return 0 if a["v"] == b["v"] else None
+    return ref.pms_ver_cmp(a["v"], b["v"])
+
+
+def atom_ref_sign(a, b):
+    """Atoms of different packages order by category, then package name; within one package only consistency is required."""
+    if a["k"] == b["k"]:
+        return None
+    return _sign(tuple(a["k"].split("/")), tuple(b["k"].split("/")))
+
+
+REF_SIGN = {"cpv": cpv_ref_sign, "atom": atom_ref_sign}
+
 KINDS = {
     "cpv": (build_cpv, cpv_text, cpv_diff),
     "atom": (build_atom, atom_text, atom_diff),
@@ -233,8 +290,9 @@ def _rel(x, y):
     return (x == y, x != y, x < y, x <= y, x > y, x >= y)
 
 
-def pair_rules(x, y):
-    """Names of the consistency rules the ordered pair (x, y) [and its mirror (y, x)] breaks, with the observations."""
+def pair_rules(x, y, refsign=None):
+    """Names of the consistency rules the ordered pair (x, y) [and its mirror (y, x)] breaks, with the observations.
+    Each of the six operators is called on the real objects in both directions; nothing is derived from a cmp()."""
     eq, ne, lt, le, gt, ge = (bool(v) for v in _rel(x, y))
     req, rne, rlt, rle, rgt, rge = (bool(v) for v in _rel(y, x))
     rules = []
@@ -257,7 +315,16 @@ def pair_rules(x, y):
         rules.append("le-def")
     if ge != (gt or eq):
         rules.append("ge-def")
+    if refsign is not None:
+        # every operator, both directions, against the reference order
+        exp = (refsign == 0, refsign != 0, refsign < 0, refsign <= 0, refsign > 0, refsign >= 0)
+        rexp = (refsign == 0, refsign != 0, refsign > 0, refsign >= 0, refsign < 0, refsign <= 0)
+        if (eq, ne, lt, le, gt, ge) != exp or (req, rne, rlt, rle, rgt, rge) != rexp:
+            rules.append("ref-order")
     if not rules:
+        mn, mx = min(x, y), max(x, y)
+        if (lt and not (mn is x and mx is y)) or (gt and not (mn is y and mx is x)) or (eq and not (mn == mx)):
+            rules.append("min-max")
         if len({x, y}) != (1 if eq else 2) or (y in {x: 1}) != eq or (x in {y: 1}) != eq:
             rules.append("set-dict")
         s1, s2 = sorted([x, y]), sorted([y, x])
@@ -277,6 +344,8 @@ _EXPLAIN = {
     "ne-unordered": "unequal objects are not strictly ordered one way",
     "le-def": "<= differs from (< or ==)",
     "ge-def": ">= differs from (> or ==)",
+    "ref-order": "the six operators do not all agree with the reference order (category, package, PMS version)",
+    "min-max": "min()/max() disagree with <",
     "set-dict": "set/dict membership disagrees with ==",
     "sorted": "sorted() of the two orders differs",
 }
@@ -285,7 +354,7 @@ _EXPLAIN = {
 def check_pair(kind, da, db):
     build, text, _ = KINDS[kind]
     x, y = build(da), build(db)
-    rules, obs = pair_rules(x, y)
+    rules, obs = pair_rules(x, y, REF_SIGN[kind](da, db))
     if not rules:
         return [], obs
     o = " ".join(f"{k}:{'T' if v else 'F'}" for k, v in obs.items())
@@ -323,6 +392,11 @@ def check_sort3(objs):
     base = None
     for perm in itertools.permutations(objs):
         s = sorted(perm)
+        # the result is a chain under the real operators: no later element is < an earlier one, neighbours are <=
+        if s[1] < s[0] or s[2] < s[1] or s[2] < s[0] or not (s[0] <= s[1] and s[1] <= s[2] and s[0] <= s[2]):
+            return ["sorted-not-a-chain"]
+        if s[0] > s[1] or s[1] > s[2] or s[0] > s[2] or not (s[2] >= s[1] and s[1] >= s[0] and s[2] >= s[0]):
+            return ["sorted-not-a-chain"]
         if base is None:
             base = s
         elif not all(a == b for a, b in zip(base, s)):
@@ -345,12 +419,8 @@ def _triple_msgs(kind, descs):
 # ---------------------------------------------------------------- tasks
 def _universe(kind, which, tier):
     if kind == "cpv":
-        return cpv_universe(tier) if which == "pairs" else cpv_sub_universe(tier)
-    if which == "pairs":
-        return atom_universe(tier)
-    if which == "cross":
-        return atom_cross_universe(tier)
-    return atom_sub_universe(tier)
+        return {"pairs": cpv_universe, "cross": cpv_cross_universe, "sub": cpv_sub_universe, "keys": cpv_keys_sub_universe}[which](tier)
+    return {"pairs": atom_universe, "cross": atom_cross_universe, "sub": atom_sub_universe, "keys": atom_keys_sub_universe}[which](tier)
 
 
 def tasks(tier):
@@ -359,7 +429,10 @@ def tasks(tier):
     out += [("pairs", "cpv", "pairs", tier, r, n) for r in range(n)]
     n = 96 if tier == "quick" else 240
     out += [("pairs", "atom", "pairs", tier, r, n) for r in range(n)]
-    out += [("pairs", "atom", "cross", tier, 0, 1)]
+    out += [("pairs", "atom", "cross", tier, r, 12) for r in range(12)]
+    out += [("pairs", "cpv", "cross", tier, r, 2) for r in range(2)]
+    out += [("triples", "cpv", "keys", tier, r, 6) for r in range(6)]
+    out += [("triples", "atom", "keys", tier, r, 6) for r in range(6)]
     n = 8 if tier == "quick" else 16
     out += [("triples", "cpv", "sub", tier, r, n) for r in range(n)]
     n = 16 if tier == "quick" else 48
@@ -390,7 +463,7 @@ def work(task):
                 if not _comparable(kind, descs[i], descs[j]):
                     continue
                 evals += 1
-                rules, obs = pair_rules(x, objs[j])
+                rules, obs = pair_rules(x, objs[j], REF_SIGN[kind](descs[i], descs[j]))
                 dims = diff(descs[i], descs[j])
                 k = f"{kind}:{_dim_sig(dims)}:{_obs_sig(obs)}"
                 classes[k] = classes.get(k, 0) + 1
